@@ -20,10 +20,10 @@ RULE = ("sequences of 1..6 messages of mixed types of one schema (random / empty
         "load(stream, SIZE_DELIMITED) calls return the written sequence and stream.tell() after call i is the i-th frame "
         "boundary computed by the spec codec; (3) the same with a reader whose schema is older (fields deleted); (4) for "
         "EVERY cut point 0..len(stream) each load either raises or returns the i-th written message. "
-        "Writer objects are partly reused (measured, grown in place, written again); frames may hold records of known numbers with non-fitting wire types; a directed stream holds the bundled well-known messages and messages alternating between +0.0 and -0.0. distinct = distinct (stream bytes, cut) executions; a one-message stream with no cut is the trivial case.")
+        "'big' shards: frames of 0..20000 bytes (sizes around 127/128, 1023/1024, 8191/8192, 16383/16384) of hand-written message types, read back through eight kinds of stream objects and cut inside the length prefix, at / next to top-level record boundaries and at random positions. Writer objects are partly reused (measured, grown in place, written again); frames may hold records of known numbers with non-fitting wire types; a directed stream holds the bundled well-known messages and messages alternating between +0.0 and -0.0. distinct = distinct (stream bytes, cut) executions; a one-message stream with no cut is the trivial case.")
 ASSUMPTIONS = [
     "frame boundaries come from the independent spec-level codec; reference framing = google.protobuf.proto.serialize_length_prefixed",
-    "streams are io.BytesIO; a load that raises ends the reading of that stream",
+    "streams are io.BytesIO in the generated workloads; the 'big' shards read the same stream back through real files (default, unbuffered and 16-byte buffers), BufferedReaders with 1- and 7-byte buffers, a BufferedReader over a raw stream that returns short reads, and gzip; a load that raises ends the reading of that stream",
     "ruff is replaced by an identity stand-in when the plugin formats its output",
 ]
 FLOORS = {"quick": {"streams": 150, "cut_executions": 15000}, "thorough": {"streams": 6000, "cut_executions": 600000}}
@@ -42,6 +42,8 @@ def plan(tier, seed):
     for i in range(6 if tier == "quick" else 60):
         shards.append({"kind": "older", "pair": seed * 50021 + i, "seed": seed * 77 + i, "n": n, "time_cap": 30 if tier == "quick" else 600})
     shards.append({"kind": "directed", "seed": seed})
+    for i in range(2 if tier == "quick" else 16):
+        shards.append({"kind": "big", "seed": seed * 131 + i, "reps": 1 if tier == "quick" else 4})
     return shards
 
 
@@ -304,9 +306,217 @@ def _same_message(b, rb, mi, got, d: bytes, same_schema: bool) -> bool:
     return bp.norm(mi, wcls().parse(bytes(got))) == bp.norm(mi, wcls().parse(d))
 
 
+# ---------------------------------------------------------------------------
+# large frames and other kinds of stream objects
+
+def _big_classes():
+    import dataclasses
+    from typing import Dict, List, Optional
+
+    import betterproto
+
+    ns = {"List": List, "Dict": Dict, "Optional": Optional}
+    Leaf = dataclasses.make_dataclass("C10Leaf", [("x", "int", betterproto.int32_field(1)), ("s", "str", betterproto.string_field(2))],
+                                      bases=(betterproto.Message,), eq=False, repr=False)
+    Leaf.__module__ = __name__
+    globals()["C10Leaf"] = Leaf
+    Big = dataclasses.make_dataclass("C10Big", [
+        ("id", "int", betterproto.int64_field(1)), ("name", "str", betterproto.string_field(2)), ("blob", "bytes", betterproto.bytes_field(3)),
+        ("nums", "List[int]", betterproto.int32_field(4)), ("leaves", "List[C10Leaf]", betterproto.message_field(5)),
+        ("tags", "List[str]", betterproto.string_field(6)), ("fx", "List[float]", betterproto.double_field(7)),
+        ("m", "Dict[str, C10Leaf]", betterproto.map_field(8, betterproto.TYPE_STRING, betterproto.TYPE_MESSAGE)),
+        ("leaf", "C10Leaf", betterproto.message_field(17)), ("big_no", "int", betterproto.uint64_field(300)),
+        ("opt", "Optional[str]", betterproto.string_field(18, optional=True)),
+    ], bases=(betterproto.Message,), eq=False, repr=False)
+    Big.__module__ = __name__
+    globals()["C10Big"] = Big
+    globals().update(ns)
+    return Leaf, Big
+
+
+def _big_messages(rng, Leaf, Big):
+    """messages whose frames are 0 .. ~20000 bytes, with sizes around 127/128, 1023/1024, 8191/8192, 16383/16384"""
+    def filler(n):
+        return bytes(rng.randrange(256) for _ in range(n))
+
+    out = [Big(), Leaf(), Big(id=1)]
+    for target in (100, 126, 127, 128, 129, 1000, 1022, 1023, 1024, 1025, 1500, 4000, 8185, 8190, 8192, 8200, 16380, 16384, 16390, 20000):
+        shape = rng.choice(["blob", "leaves", "tags", "nums", "map", "mixed"])
+        m = Big(id=rng.choice([0, 1, -1, 2 ** 40]))
+        if shape == "blob":
+            m.blob = filler(max(0, target - 6))
+        elif shape == "leaves":
+            m.leaves = [Leaf(x=i, s="l%d" % i) for i in range(max(1, target // 9))]
+        elif shape == "tags":
+            m.tags = ["t%04d" % i for i in range(max(1, target // 7))]
+        elif shape == "nums":
+            m.nums = [rng.choice([0, 1, 127, 128, 300, -1, 2 ** 31 - 1]) for _ in range(max(1, target // 3))]
+        elif shape == "map":
+            m.m = {"k%04d" % i: Leaf(x=i) for i in range(max(1, target // 13))}
+        else:
+            m.name = "n" * (target // 4)
+            m.leaves = [Leaf(x=i) for i in range(target // 16)]
+            m.fx = [float(i) for i in range(target // 40)]
+            m.big_no = 2 ** 63
+            m.leaf = Leaf(s="z" * (target // 8))
+            m.opt = ""
+        if rng.random() < 0.3:
+            m.leaf = Leaf()  # an empty message at the very end of the frame is not emitted; a parsed-empty one below is
+        out.append(m)
+    out.append(Big().parse(bytes(Big(name="x" * 1100)) + b"\xa2\x06\x00"))  # large, ends with an unknown empty record (#100)
+    out.append(Big().parse(b"\x8a\x01\x00" + bytes(Big(tags=["q" * 50] * 30))))  # present-but-empty leaf first
+    return out
+
+
+class _OneByteRaw(io.RawIOBase):
+    """a raw stream that hands out at most `chunk` bytes per read call (what sockets and pipes do)"""
+
+    def __init__(self, data: bytes, chunk: int):
+        self._b = io.BytesIO(data)
+        self._chunk = chunk
+
+    def readable(self):
+        return True
+
+    def readinto(self, buf):
+        d = self._b.read(min(len(buf), self._chunk))
+        buf[:len(d)] = d
+        return len(d)
+
+
+def _stream_kinds(data: bytes, workdir: str):
+    """name -> factory of a readable binary stream over `data`"""
+    import gzip
+    import os
+
+    path = os.path.join(workdir, "c10big.bin")
+    with open(path, "wb") as fh:
+        fh.write(data)
+    gz = os.path.join(workdir, "c10big.gz")
+    with gzip.open(gz, "wb") as fh:
+        fh.write(data)
+    return {
+        "BytesIO": lambda: io.BytesIO(data),
+        "file-rb": lambda: open(path, "rb"),
+        "file-rb-unbuffered": lambda: open(path, "rb", buffering=0),
+        "file-rb-buffer-16": lambda: open(path, "rb", buffering=16),
+        "BufferedReader-1": lambda: io.BufferedReader(io.BytesIO(data), buffer_size=1),
+        "BufferedReader-7": lambda: io.BufferedReader(io.BytesIO(data), buffer_size=7),
+        "BufferedReader-over-short-reads": lambda: io.BufferedReader(_OneByteRaw(data, 3), buffer_size=64),
+        "gzip": lambda: gzip.open(gz, "rb"),
+    }
+
+
+def run_big(shard) -> Result:
+    import os
+    import tempfile
+
+    import betterproto
+
+    res = Result()
+    rng = random.Random(f"c10big-{shard['seed']}")
+    Leaf, Big = _big_classes()
+    from .. import env as _env
+
+    os.makedirs(_env.WORK, exist_ok=True)
+    workdir = tempfile.mkdtemp(prefix="c10big-", dir=_env.WORK)
+    try:
+        msgs = _big_messages(rng, Leaf, Big)
+        order = list(range(len(msgs)))
+        for rep in range(shard.get("reps", 2)):
+            rng.shuffle(order)
+            seq = [msgs[i] for i in order]
+            datas = [bytes(m) for m in seq]
+            s = io.BytesIO()
+            for m in seq:
+                m.dump(s, betterproto.SIZE_DELIMITED)
+            stream = s.getvalue()
+            exp = b"".join(spec.enc_varint(len(d)) + d for d in datas)
+            w = {"kind": "big", "seed": shard["seed"], "reps": rep + 1}
+            res.evaluations += 1
+            res.note("streams")
+            res.note("big_frames", len(seq))
+            res.distinct.add(f"big:{shard['seed']}:{rep}")
+            if stream != exp:
+                res.violation("framing", ["big", "stream-differs-from-varint-len-plus-bytes"], f"{len(stream)} bytes written, {len(exp)} expected", w)
+                continue
+            bounds, pos = [], 0
+            for d in datas:
+                pos += len(spec.enc_varint(len(d))) + len(d)
+                bounds.append(pos)
+            # (a) read back through every kind of stream object
+            for kind, make in _stream_kinds(stream, workdir).items():
+                fh = make()
+                try:
+                    for i, m in enumerate(seq):
+                        try:
+                            got = type(m)().load(fh, betterproto.SIZE_DELIMITED)
+                        except Exception as e:
+                            res.violation("readback", ["big", kind, "raised:" + type(e).__name__],
+                                          f"frame {i} of {len(seq)} ({len(datas[i])} bytes, ends at {bounds[i]}) through {kind}: {e!r}", w)
+                            break
+                        res.note("big_loads")
+                        if bytes(got) != datas[i] or got != m:
+                            res.violation("readback", ["big", kind, "differs"], f"frame {i} ({len(datas[i])} bytes) through {kind} differs from what was written", w)
+                            break
+                        try:
+                            at = fh.tell()
+                        except Exception:
+                            at = None
+                        if at is not None and kind != "gzip" and at != bounds[i]:
+                            res.violation("position", ["big", kind, "tell-not-at-frame-boundary"], f"after frame {i} tell()={at}, boundary {bounds[i]}", w)
+                            break
+                finally:
+                    fh.close()
+                res.note("stream_kind:" + kind)
+            # (b) truncation, frame by frame behind one small frame: every cut inside the length prefix, the first / last /
+            # a sample of the top-level record boundaries (and the byte before and after each), a few random positions
+            head = spec.enc_varint(len(datas[0])) + datas[0]
+            for i, d in enumerate(datas):
+                pre = spec.enc_varint(len(d))
+                one = head + pre + d
+                base = len(head) + len(pre)
+                recs = spec.read_records(d)
+                few = len(d) > 2100  # decoding is pure Python: the largest frames get a handful of cuts only
+                pick = (recs[:1] + recs[-1:] + [rng.choice(recs)] if few else recs[:8] + recs[-8:] + [rng.choice(recs) for _ in range(14)]) if recs else []
+                cuts = set(range(len(head), base + 1))
+                for rec in pick:
+                    cuts.update((base + rec.start - 1, base + rec.start, base + rec.start + 1, base + rec.payload_start, base + rec.end - 1))
+                for _ in range(2 if few else 8):
+                    cuts.add(rng.randrange(len(head), len(one)))
+                starts = {base + r.start for r in recs}
+                for c in sorted(x for x in cuts if len(head) <= x < len(one)):
+                    fh = io.BytesIO(one[:c])
+                    try:
+                        type(seq[0])().load(fh, betterproto.SIZE_DELIMITED)
+                        got = type(seq[i])().load(fh, betterproto.SIZE_DELIMITED)
+                    except Exception:
+                        res.note("cut_executions")
+                        continue
+                    res.note("cut_executions")
+                    where = "at-record-boundary" if c in starts else "inside-record"
+                    size = ">=1024" if len(d) >= 1024 else "<1024"
+                    if bytes(got) != d:
+                        res.violation("truncation", ["big", "shortened-message-returned", where, size],
+                                      f"frame of {len(d)} bytes cut after {c - base} payload bytes: load returned a message of {len(bytes(got))} bytes", w)
+                    else:
+                        res.violation("truncation", ["big", "message-returned-beyond-cut", where, size],
+                                      f"frame of {len(d)} bytes cut after {c - base} payload bytes: load returned the whole message", w)
+        res.sample({"big_stream": [len(bytes(m)) for m in msgs][:30], "stream_kinds": sorted(_stream_kinds(b"", workdir))})
+    except Exception as e:
+        res.inconclusive.append(f"oracle crashed: {type(e).__name__}: {e}\n{traceback.format_exc()[-1500:]}")
+    finally:
+        import shutil
+
+        shutil.rmtree(workdir, ignore_errors=True)
+    return res
+
+
 def run_shard(shard) -> Result:
     if shard.get("kind") == "directed":
         return run_directed(shard)
+    if shard.get("kind") == "big":
+        return run_big(shard)
     res = Result()
     rng = random.Random(f"c10-{shard['seed']}")
     try:
@@ -356,6 +566,8 @@ def run_shard(shard) -> Result:
 def replay(w):
     if w.get("kind") == "directed":
         return run_directed({"kind": "directed", "seed": 0}).violations
+    if w.get("kind") == "big":
+        return run_big({"kind": "big", "seed": w["seed"], "reps": w.get("reps", 2)}).violations
     res = Result()
     sh = w["shard"]
     if sh["kind"] == "same":
